@@ -9,7 +9,7 @@ use crate::command::handlers::query::context::QueryContext;
 use crate::command::handlers::query::dispatch::StreamingDispatch;
 use crate::command::handlers::query::planner::{PlanOutcome, QueryPlannerBuilder};
 use crate::command::handlers::shard_command_builder::ShardCommandBuilder;
-use crate::command::types::{Command, EventSequence};
+use crate::command::types::{Command, EventSequence, Expr};
 use crate::engine::core::read::flow::shard_pipeline::ShardFlowHandle;
 use crate::engine::core::read::sequence::utils::transform_where_clause_for_event_type;
 use crate::engine::shard::message::ShardMessage;
@@ -35,6 +35,18 @@ impl SequenceStreamingDispatcher {
             event_types.push(target.event.clone());
         }
         event_types
+    }
+
+    /// Collects the field names a (transformed, prefix-free) WHERE expression reads.
+    fn collect_where_fields(expr: &Expr, fields: &mut Vec<String>) {
+        match expr {
+            Expr::Compare { field, .. } | Expr::In { field, .. } => fields.push(field.clone()),
+            Expr::And(left, right) | Expr::Or(left, right) => {
+                Self::collect_where_fields(left, fields);
+                Self::collect_where_fields(right, fields);
+            }
+            Expr::Not(inner) => Self::collect_where_fields(inner, fields),
+        }
     }
 
     /// Creates a sub-query command for a specific event type.
@@ -67,11 +79,21 @@ impl SequenceStreamingDispatcher {
 
         // A RETURN list must not hide the columns the sequence itself needs: the merger groups
         // on the link field and orders on the USING TIME field, so both stay in the projection
-        // (the merger drops them again from the result if they were not asked for)
+        // (the merger drops them again from the result if they were not asked for). The merger
+        // also evaluates this event type's part of the WHERE clause again on the rows it
+        // receives, so the fields that part reads stay as well
+        let mut where_fields = Vec::new();
+        if let Some(expr) = &transformed_where_clause {
+            Self::collect_where_fields(expr, &mut where_fields);
+        }
         let return_fields = return_fields.as_ref().map(|fields| {
             let mut fields = fields.clone();
             if !fields.is_empty() {
-                for needed in [link_field, sequence_time_field].into_iter().flatten() {
+                for needed in [link_field, sequence_time_field]
+                    .into_iter()
+                    .flatten()
+                    .chain(where_fields.iter())
+                {
                     if !fields.contains(needed) {
                         fields.push(needed.clone());
                     }
